@@ -74,6 +74,14 @@ CHECKS = {
         "quick": [{"test": "TestC11", "checks": 120, "shards": 8}],
         "thorough": [{"test": "TestC11", "checks": 2500, "shards": 16, "env": {"VERIF_TIER": "thorough"}}],
     },
+    "C17": {
+        "level": "fault_enumeration",
+        "rule": "a generated prefix history (6-28 steps), then ONE public call with an error result: reads on a committed version {Get, Has, GetWithIndex, GetByIndex, Iterate, Iterator loop+Error+Close, GetProof (membership and non-membership), GetVersioned, GetImmutable+Hash, Export loop, LoadVersion, TraverseStateChanges, VersionExists/AvailableVersions/GetLatestVersion}, reads on the working tree {Get, Iterate, Iterator}, writes {Set+SaveVersion, Remove+SaveVersion, SaveVersion without changes, DeleteVersionsTo, LoadVersionForOverwriting, Import+Commit}, on a cold handle (cache 0/2/1000, fast index on/off). A fault-free run on a cloned image records the result R and the number n of storage calls; then EVERY position k in [1,n] is faulted once (Get, Has, Iterator/ReverseIterator creation, iterator step, batch Set/Delete/Write) on a fresh clone, plus 0-3 drawn multi-fault sets. Oracle: an error, or exactly R (fault on an irrelevant path); never another value, an absence, a shorter iteration/export, a panic or a process abort; a write call must not report success when a storage write failed; the store left behind by a failed single-batch write reopens with every listed version readable and unchanged. non-trivial = n >= 2 and at least one position turned the result into an error; exhaustive over positions within each case",
+        "assumptions": _ASSUME + ["calls without an error result (IterateRange, IterateRangeInclusive) are outside the property", "write calls use flush threshold 100000 (one physical write); a sixth of them 150/300 where only the error-vs-success oracle applies (F7 family)"],
+        "coverage_extra": {"exhaustive_within_each_history": True},
+        "quick": [{"test": "TestC17", "checks": 250, "shards": 8}],
+        "thorough": [{"test": "TestC17", "checks": 8000, "shards": 16}],
+    },
     "C18": {
         "level": "exploration",
         "rule": "programs of 1-30 steps over {Set, Delete (incl. empty key / nil value probes), Get+Has, batch (Set/Delete..., Write|WriteSync|Close, then reuse attempts), forward/reverse iterators with bounds nil / stored key / extension / prefix / random, fully or partially consumed and closed inside the step} with keys over the alphabet {00,01,'a',FE,FF} (length 0-4), executed on MemDB, PrefixDB(MemDB), PrefixDB(PrefixDB(MemDB)) (and GoLevelDB, PrefixDB(GoLevelDB) in the LevelDB slice) with prefixes incl. FF, FF FF, 'a' FF, FE FF FF; every parent store is pre-seeded with keys outside the namespace (the prefix itself, prefix minus last byte, incremented prefix and its extensions, just-below keys, FF runs). Oracle: one sorted-map model; identical observable results on all backends; after every step each view dumps exactly the model and the outside keys of each parent are unchanged. non-trivial = an iterator bound equal to a stored key, or a range that splits the key set",
